@@ -126,8 +126,49 @@ def run_obligations(pid, W, tier, config):
             ob.instances.append(dict(status='anchor-missing', key='%s|error|%s' % (oid, type(e).__name__),
                                      what='rule raised %s: %s' % (type(e).__name__, e),
                                      where=None, witness=traceback.format_exc()[-1500:]))
+        _scope_filter(pid, ob)
         obs.append(ob)
     return mod, obs
+
+
+# Whole-crate inventories (call / expression / vocabulary / state / error-exit / cast / trait-impl / must-call / removal tables) are shared by many properties.
+# A finding of such an inventory concerns one function; it is reported under a property only if that property is anchored in the function (tables/scope.json:
+# the functions the property's anchors name, and their direct callees) -- or, for a function no property names, if the function's file is among the
+# property's anchor files.  Everywhere else it is kept as an informational instance.  Round 12: one benign edit in a checksum helper raised the same
+# inventory finding under fourteen properties.
+INVENTORY_CLASSES = set('KAVSECPMR')
+_SCOPE = None
+
+
+def _scope_filter(pid, ob):
+    global _SCOPE
+    cls = ob.id.split('.')[-1]
+    if not (len(cls) == 1 and cls in INVENTORY_CLASSES):
+        return
+    if _SCOPE is None:
+        try:
+            with open(os.path.join(VERIF, 'tables', 'scope.json')) as f:
+                _SCOPE = json.load(f)
+        except OSError:
+            _SCOPE = {}
+    sc = _SCOPE.get('scope')
+    if not sc:
+        return
+    import re
+    mine = set(sc.get(pid, []))
+    owned = set().union(*[set(v) for v in sc.values()])
+    files = set(_SCOPE.get('files', {}).get(pid, []))
+    for i in ob.instances:
+        if i['status'] != 'violated' or '|floor|' in i.get('key', ''):
+            continue
+        names = set(re.findall(r'[A-Za-z_][A-Za-z0-9_]*::[A-Za-z_][A-Za-z0-9_]*', i['key']))
+        names = {n for n in names if n in _SCOPE.get('fn_file', {})}
+        if not names or names & mine:
+            continue
+        if not (names & owned) and any(_SCOPE['fn_file'].get(n) in files for n in names):
+            continue
+        i['status'] = 'info'
+        i['what'] = '[outside the functions this property is anchored in; reported under the properties that are] ' + i['what']
 
 
 def check_property(pid, tier='quick', repo='/repo', write=True, quiet=False, configs=None, kill_matrix=None):
